@@ -892,10 +892,13 @@ func (p *Posix) fileToObjVersions(bucket string) backend.GetVersionsFunc {
 		if err == nil {
 			versionId = string(versionIdBytes)
 		}
-		if versionId == versionIdMarker {
+		// the listing resumes after the version id marker: when the marker is
+		// the current version itself, that version was already delivered
+		isMarker := !*pastVersionIdMarker && versionId == versionIdMarker
+		if isMarker {
 			*pastVersionIdMarker = true
 		}
-		if *pastVersionIdMarker {
+		if *pastVersionIdMarker && !isMarker {
 			fi, err := d.Info()
 			if errors.Is(err, fs.ErrNotExist) {
 				return nil, backend.ErrSkipObj
@@ -1035,6 +1038,17 @@ func (p *Posix) fileToObjVersions(bucket string) backend.GetVersionsFunc {
 		isNullVersionIdObjFound := nullVersionIdObj != nil || nullObjDelMarker != nil
 
 		if len(dirEnts) == 1 && (isNullVersionIdObjFound) {
+			if !*pastVersionIdMarker {
+				// the listing resumes after the marker: the null version is
+				// either the marker itself or lies before it
+				if versionIdMarker == nullVersionId {
+					*pastVersionIdMarker = true
+				}
+				return &backend.ObjVersionFuncResult{
+					ObjectVersions: objects,
+					DelMarkers:     delMarkers,
+				}, nil
+			}
 			if nullObjDelMarker != nil {
 				delMarkers = append(delMarkers, *nullObjDelMarker)
 			}
@@ -1079,22 +1093,30 @@ func (p *Posix) fileToObjVersions(bucket string) backend.GetVersionsFunc {
 			// by checking its creation date, then continue the adding
 			if isNullVersionIdObjFound && !isNullVersionIdObjAdded {
 				if nf.ModTime().After(f.ModTime()) {
-					if nullVersionIdObj != nil {
-						objects = append(objects, *nullVersionIdObj)
-					}
-					if nullObjDelMarker != nil {
-						delMarkers = append(delMarkers, *nullObjDelMarker)
-					}
-
 					isNullVersionIdObjAdded = true
 
-					if availableObjCount--; availableObjCount == 0 {
-						return &backend.ObjVersionFuncResult{
-							ObjectVersions:      objects,
-							DelMarkers:          delMarkers,
-							Truncated:           true,
-							NextVersionIdMarker: nullVersionId,
-						}, nil
+					if !*pastVersionIdMarker {
+						// not delivered again: the null version is the
+						// marker itself or lies before it
+						if versionIdMarker == nullVersionId {
+							*pastVersionIdMarker = true
+						}
+					} else {
+						if nullVersionIdObj != nil {
+							objects = append(objects, *nullVersionIdObj)
+						}
+						if nullObjDelMarker != nil {
+							delMarkers = append(delMarkers, *nullObjDelMarker)
+						}
+
+						if availableObjCount--; availableObjCount == 0 {
+							return &backend.ObjVersionFuncResult{
+								ObjectVersions:      objects,
+								DelMarkers:          delMarkers,
+								Truncated:           true,
+								NextVersionIdMarker: nullVersionId,
+							}, nil
+						}
 					}
 				}
 			}
@@ -1164,7 +1186,13 @@ func (p *Posix) fileToObjVersions(bucket string) backend.GetVersionsFunc {
 
 		// If null versionId object is found but not yet pushed,
 		// push it after the listing, as it's the oldest object version
-		if isNullVersionIdObjFound && !isNullVersionIdObjAdded {
+		if isNullVersionIdObjFound && !isNullVersionIdObjAdded && !*pastVersionIdMarker {
+			// not delivered again: the null version is the marker itself or
+			// lies before it
+			if versionIdMarker == nullVersionId {
+				*pastVersionIdMarker = true
+			}
+		} else if isNullVersionIdObjFound && !isNullVersionIdObjAdded {
 			if nullVersionIdObj != nil {
 				objects = append(objects, *nullVersionIdObj)
 			}
